@@ -5,6 +5,7 @@ import Iec.Drv.Cli104
 import Iec.Drv.Dispatch
 import Iec.Drv.Locks
 import Iec.Drv.Link101
+import Iec.Drv.Q101
 /-
 iecdrv — line-protocol driver: one operation per input line, one canonical result
 line per operation.  The C harnesses execute the same lines on the real code; the
@@ -17,6 +18,7 @@ structure DrvState where
   srv : Iec.Drv.Srv104.St := {}
   cli : Iec.Drv.Cli104.St := {}
   ll : Iec.Drv.Link101.St := {}
+  q : Option Iec.Q101.Q := none
 
 def dispatch (st : DrvState) (ws : List String) : DrvState × String :=
   match ws with
@@ -43,7 +45,10 @@ def dispatch (st : DrvState) (ws : List String) : DrvState × String :=
                 | none =>
                   match Iec.Drv.Link101.handle st.ll ws with
                   | some (a, s) => ({ st with ll := a }, s)
-                  | none => (st, "bad-op")
+                  | none =>
+                    match Iec.Drv.Q101.handle st.q ws with
+                    | some (a, s) => ({ st with q := a }, s)
+                    | none => (st, "bad-op")
 
 partial def loop (h : IO.FS.Stream) (out : IO.FS.Stream) (st : DrvState) : IO Unit := do
   let line ← h.getLine
